@@ -34,6 +34,8 @@ CFG = {
 
 ASAN = '-fsanitize=address -fsanitize-address-use-after-scope -fno-omit-frame-pointer'
 TSAN = '-fsanitize=thread -fno-omit-frame-pointer'
+# signed overflow is excluded: std::atomic arithmetic is defined to wrap, the oracle is the value comparison
+UBSAN = '-fsanitize=undefined -fno-sanitize=signed-integer-overflow -fno-sanitize-recover=undefined'
 COMMON = '-std=c++20 -fcoroutines -DYACLIB_VERIF -Wno-attributes'
 
 # harness binaries ----------------------------------------------------------------------------------------------
@@ -47,7 +49,7 @@ def load_extra_targets():
     """Targets are declared next to their sources in harness/targets.py so adding a family does not touch this file."""
     path = os.path.join(VERIF, 'harness', 'targets.py')
     if os.path.exists(path):
-        ns = {'ASAN': ASAN, 'TSAN': TSAN, 'COMMON': COMMON}
+        ns = {'ASAN': ASAN, 'TSAN': TSAN, 'UBSAN': UBSAN, 'COMMON': COMMON}
         exec(open(path).read(), ns)
         TARGETS.update(ns.get('TARGETS', {}))
         CFG.update(ns.get('CFG', {}))
